@@ -84,11 +84,11 @@ func TestVerif_C47(t *testing.T) {
 type c47Case struct {
 	rt      *rapid.T
 	env     *c47Env
-	live    map[string]*c47Live  // lower-case name -> live database
-	liveFP  map[string][]string  // lower-case name -> fingerprint at the last point it was taken
-	dropped map[string][]string  // exact name -> fingerprint before the drop
-	dirtyAt map[string]bool      // exact name (dropped) -> had uncommitted changes
-	backups map[string]int       // exact name -> older generations renamed to <name>.backup.<ms>
+	live    map[string]*c47Live // lower-case name -> live database
+	liveFP  map[string][]string // lower-case name -> fingerprint at the last point it was taken
+	dropped map[string][]string // exact name -> fingerprint before the drop
+	dirtyAt map[string]bool     // exact name (dropped) -> had uncommitted changes
+	backups map[string]int      // exact name -> older generations renamed to <name>.backup.<ms>
 	log     []string
 	gen     int
 }
